@@ -165,7 +165,7 @@ def BOp.effect (isDest : Nat → Bool) (st : BState) : BOp → Option (List Nat 
             [.r2s cs (tn, st.size tn) (vn, st.size vn) sd], [cs])
     else none
   | .deliver c dn =>
-    if c.1 < st.sizes.length ∧ c.2 < st.size c.1 ∧ ¬ c ∈ st.bridged ∧ isDest c.1 = false ∧ dn < st.sizes.length ∧ c.1 ≠ dn then
+    if c.1 < st.sizes.length ∧ c.2 < st.size c.1 ∧ ¬ c ∈ st.bridged ∧ isDest c.1 = false ∧ dn < st.sizes.length ∧ c.1 ≠ dn ∧ isDest dn = true then
       some (growTo st.sizes dn (st.size dn + 1), [.copy ⟨c.1, c.2, 1⟩ ⟨dn, st.size dn, 1⟩], [c])
     else none
 
@@ -512,11 +512,11 @@ theorem BOp.goodStep {isDest : Nat → Bool} {st : BState} (hI : Inv isDest st) 
     · rw [if_neg hc] at h; cases h
   | deliver c dn =>
     simp only [BOp.effect] at h
-    by_cases hc : c.1 < st.sizes.length ∧ c.2 < st.size c.1 ∧ ¬ c ∈ st.bridged ∧ isDest c.1 = false ∧ dn < st.sizes.length ∧ c.1 ≠ dn
+    by_cases hc : c.1 < st.sizes.length ∧ c.2 < st.size c.1 ∧ ¬ c ∈ st.bridged ∧ isDest c.1 = false ∧ dn < st.sizes.length ∧ c.1 ≠ dn ∧ isDest dn = true
     · rw [if_pos hc] at h
       simp only [Option.some.injEq] at h
       subst h
-      obtain ⟨h1, h2, hnb, hnd, hdn, hne⟩ := hc
+      obtain ⟨h1, h2, hnb, hnd, hdn, hne, _⟩ := hc
       have hg := growTo_grows st.sizes dn (st.size dn + 1)
       refine { grow := hg, registered := ?_, inside := ?_, writes := ?_, fresh := ?_, notDest := ?_, srcIn := ?_, wfNew := ?_ }
       · intro e he n hn
@@ -562,5 +562,64 @@ theorem Inv.build {isDest : Nat → Bool} (ops : List BOp) : ∀ {st st' : BStat
     | some st1 =>
       simp only [h1, Option.bind_some] at h
       exact ih (hI.apply op h1) h
+
+
+/-! ### the origin of a delivered item -/
+
+theorem build_entries_prefix (isDest : Nat → Bool) (ops : List BOp) : ∀ {st st' : BState}, build isDest ops st = some st' →
+    ∃ rest, st'.entries = st.entries ++ rest := by
+  induction ops with
+  | nil => intro st st' h; simp only [MpVerif.C04.build, Option.some.injEq] at h; subst h; exact ⟨[], by simp⟩
+  | cons op ops ih =>
+    intro st st' h
+    simp only [MpVerif.C04.build] at h
+    cases h1 : st.apply isDest op with
+    | none => simp [h1] at h
+    | some st1 =>
+      simp only [h1, Option.bind_some] at h
+      obtain ⟨rest, hr⟩ := ih h
+      simp only [BState.apply, Option.map_eq_some_iff] at h1
+      obtain ⟨r, _, hst1⟩ := h1
+      subst hst1
+      exact ⟨r.2.1 ++ rest, by rw [hr]; simp⟩
+
+/-- **The certificate of a delivered item is the slot it was delivered to**: if `AddAllUnbridged` delivers item `c` to target node `dn`
+    (whose declared size is then `slot`), then in EVERY later state of the construction the postsolve origin of `c` is exactly solver
+    item `(dn, slot)` — for every value kind. -/
+theorem deliver_origin (isDest : Nat → Bool) (ops0 ops1 : List BOp) (st0 st1 st2 : BState) (c : Cell) (dn : Nat) (k : Kind)
+    (h0 : build isDest ops0 ⟨[], [], []⟩ = some st0) (h1 : st0.apply isDest (.deliver c dn) = some st1)
+    (h2 : build isDest ops1 st1 = some st2) :
+    tracePost k (fun c => !isDest c.1) st2.entries c = some (.init (dn, st0.size dn)) := by
+  have hI0 := Inv.build ops0 (Inv.empty isDest) h0
+  have hI1 := hI0.apply _ h1
+  have hI2 := Inv.build ops1 hI1 h2
+  simp only [BState.apply, Option.map_eq_some_iff] at h1
+  obtain ⟨r, hr, hst1⟩ := h1
+  simp only [BOp.effect] at hr
+  by_cases hc : c.1 < st0.sizes.length ∧ c.2 < st0.size c.1 ∧ ¬ c ∈ st0.bridged ∧ isDest c.1 = false ∧ dn < st0.sizes.length ∧ c.1 ≠ dn ∧ isDest dn = true
+  · rw [if_pos hc] at hr
+    simp only [Option.some.injEq] at hr
+    subst hr
+    subst hst1
+    obtain ⟨_, _, hnb, _, _, hne, hdest⟩ := hc
+    obtain ⟨rest, hrest⟩ := build_entries_prefix isDest ops1 h2
+    simp only at hrest
+    rw [hrest, List.append_assoc]
+    rw [tracePost_skip k _ st0.entries _ c (fun e he => by
+      cases hw : e.postWrites c with
+      | false => rfl
+      | true => exact absurd (hI0.sources e he c hw).1 hnb)]
+    have hcopy := tracePost_copy_head k (fun c => !isDest c.1) ⟨c.1, c.2, 1⟩ ⟨dn, st0.size dn, 1⟩ rest 0 (Nat.zero_lt_one) hne
+    simp only [Nat.add_zero, List.singleton_append] at hcopy ⊢
+    rw [hcopy]
+    apply tracePost_none_written
+    intro e he
+    cases hw : e.postWrites (dn, st0.size dn) with
+    | false => rfl
+    | true =>
+      have hmem : e ∈ st2.entries := by rw [hrest]; simp [he]
+      have := (hI2.sources e hmem _ hw).2
+      simp [hdest] at this
+  · rw [if_neg hc] at hr; cases hr
 
 end MpVerif.C04
